@@ -90,6 +90,19 @@ CHECKS = {
               "buffer is scribbled by the caller after the call (exposes kept references) and every non-output buffer is compared with its snapshot."),
         note="Trusted: nothing beyond equality with the library's own canonical result (tied to the standards by C02/C03). Only documented buffer types are driven; partial overlap of input and output is outside the statement.",
         ref="DESIGN.md §4 C09"),
+    "C10": dict(
+        technique="runtime monitor: online trace-specification checker (executable automata transcribed from the documentation stepped alongside the real object over exhaustive and random call sequences)",
+        text=("For each object class an automaton written from Doc/src/cipher/modern.rst, classic.rst, aead.png, ocb_mode.png, siv.png, the hash pages and the method docstrings (not "
+              "from the implementation's _next sets) is stepped alongside the real object: a permitted call must not raise and its output must equal the one-shot computation by a "
+              "fresh object over the data accepted so far; a forbidden call must raise TypeError and leave every later observation unchanged ('as if not made'); CCM with declared "
+              "lengths must raise ValueError at the call that exceeds / at digest when short; digest/verify/hexdigest/hexverify are re-issued and must be idempotent and unlock "
+              "nothing; copy() (where documented) yields an object in the same state and both continue interleaved on different data.  Classes: generic AEAD (GCM, EAX, "
+              "(X)ChaCha20-Poly1305), CCM in 7 declared/undeclared configurations, OCB with its finalisation states, SIV, CBC/CFB/OFB/CTR/OPENPGP, ChaCha20/XChaCha20 with seek, "
+              "single-direction ECB/Salsa20/ARC4, SHA-1/SHA-2/MD*/RIPEMD/HMAC (no restriction), SHA-3/BLAKE2/keccak/CMAC with and without update_after_digest, KMAC/TupleHash/"
+              "Poly1305, SHAKE/cSHAKE/TurboSHAKE/K12.  ALL sequences to depth 4-7 (quick) / 5-8 (thorough) per class alphabet, then random sequences of length 6-25; closing probes "
+              "after every sequence."),
+        note="Trusted: the automata are my transcription of the documentation; edges the documentation leaves open are unconstrained (listed as unconstrained:* counters). Expected values come from the library's own one-shot objects (tied to the standards by C01-C03).",
+        ref="DESIGN.md §4 C10"),
     "C11": dict(
         technique="runtime monitor: state recovery from outputs (ECB-decrypting CTR keystream to recover counter blocks; ChaCha20 keystream vs model at the history-implied position; captured HPKE nonces) over limit-crossing call histories",
         text=("CTR keystream (encrypt of zeros) of every block cipher is ECB-decrypted block by block to recover the counter block that produced it: prefix/suffix "
